@@ -735,7 +735,7 @@ class FunctionBuilder:
         return {attr: getattr(argspec, attr)
                     for attr in cls._argspec_defaults}
 
-    _defaults = {'doc': str,
+    _defaults = {'doc': lambda: None,
                  'dict': dict,
                  'is_async': lambda: False,
                  'module': lambda: None,
